@@ -94,3 +94,24 @@ META["C18"] = {
     "note": "Real files live under /verif/work and are removed after each history.",
     "technique": "runtime monitoring: differential replay across backends/configurations with a perturbing backing store",
 }
+
+META["C04"] = {
+    "text": "Exploration over (logical content x physical layout): an independent writer produces layouts the library's own writer never "
+            "does; each image is certified by the independent checker before it may judge the library.",
+    "design_ref": "DESIGN.md section 2, C04",
+    "note": "Trusts synth.rs + refparse.rs as a pair (self-check per image). v4 DIFAT layouts (457 MB) are not generated.",
+    "technique": "runtime monitoring: differential reading of independently synthesised images + model monitors on later mutations",
+}
+META["C05"] = {
+    "text": "Exploration of hostile inputs with runtime guards: panic hook, CPU-time watchdog with isolated confirmation, I/O step budget, "
+            "counting allocator. Liveness restated as bounded progress.",
+    "design_ref": "DESIGN.md section 2, C05",
+    "note": "Bounds (10 s CPU, step budget, 8 MiB + 4096*len) are the restatement of 'terminates' and 'proportional'; measured maxima are in the evidence.",
+    "technique": "runtime monitoring: panic/CPU/allocation/step-count guards over structure-aware corrupted inputs",
+}
+META["C11"] = {
+    "text": "Exploration of mutation histories on accepted-but-damaged files with panic and CPU-time guards in isolated workers.",
+    "design_ref": "DESIGN.md section 2, C11",
+    "note": "Only panics and hangs are judged; errors are fine. A worker death is attributed by heartbeat and confirmed in isolation.",
+    "technique": "runtime monitoring: panic hook + CPU watchdog over corrupted-input x mutation-history workloads",
+}
